@@ -144,7 +144,7 @@ def replay(ctx, rec):
     json.dump({n: v[0] for n, v in ref.items()}, open(ref_file, "w"))
     rej = ctx.validate_traces("Trace_Purity", "Trace_Purity.cfg", [{"init": {}, "ev": ev}], extra_env={"REF_FILE": ref_file})
     if rej:
-        print(f"VIOLATION property=C19 replay=(given) why={rej[0][2]} step={rej[0][1]}")
+        print(f"VIOLATION property=C19 replay={rec.get('path', '(given)')} why={rej[0][2]} step={rej[0][1]}")
         return 1
     print("replay: property holds on this call sequence")
     return 0
